@@ -32,13 +32,15 @@ func init() {
 		{ID: "E1.refresh.server-handler", Fn: "op.(*webServer).refreshTokenHandler", P: []string{"s", "w", "r", "client"}, Kind: "call", Pat: "$s.server.RefreshToken(_, op.newClientRequest($r, $request, $client))", Max: 1,
 			Req: []string{`neq($request.RefreshToken, "")`}},
 		// subset loop: every loop iteration that continues has found the scope among the granted ones
-		{ID: "E1.refresh.scopes.subset", Fn: "op.ValidateRefreshTokenScopes", P: []string{"requested", "authRequest"}, Kind: "backedge", Pat: "backedge($requested)", Max: 1,
+		{ID: "E1.refresh.scopes.subset", Fn: "op.ValidateRefreshTokenScopes", P: []string{"requested", "authRequest"}, Kind: "ret ok",
 			Why: "requested scopes must be a subset of the granted scopes",
-			Req: []string{"inloop($scope, $requested)", "true(slices.Contains($authRequest.GetScopes(), $scope))"}},
-		{ID: "E1.refresh.scopes.reject", Fn: "op.ValidateRefreshTokenScopes", P: []string{"requested", "authRequest"}, Kind: "ret fail", Max: 1,
-			Req: []string{"inloop($scope, $requested)", "false(slices.Contains($authRequest.GetScopes(), $scope))"}},
+			Req: []string{"eq(len($requested), 0) || all($requested, member(ELEM, $authRequest.GetScopes()))"}},
+		{ID: "E1.refresh.scopes.reject", Fn: "op.ValidateRefreshTokenScopes", P: []string{"requested", "authRequest"}, Kind: "ret fail",
+			Why: "a request is refused only for a scope that was not granted",
+			Req: []string{"some($requested, notmember(ELEM, $authRequest.GetScopes()))"}},
 		{ID: "E8.refresh.scopes.set", Fn: "op.ValidateRefreshTokenScopes", P: []string{"requested", "authRequest"}, Kind: "call", Pat: "$authRequest.SetCurrentScopes($requested)", Max: 1,
-			Req: []string{"neq(len($requested), 0)"}},
+			Why: "only a validated, non-empty subset becomes the current scope set",
+			Req: []string{"neq(len($requested), 0)", "all($requested, member(ELEM, $authRequest.GetScopes()))"}},
 		// rotation: the presented refresh token reaches the storage; the storage's new token reaches the response
 		{ID: "E8.refresh.rotation.tokens", Fn: "op.CreateTokenResponse", P: []string{"ctx", "request", "client", "creator", "createAccessToken", "code", "refreshToken"}, Kind: "call",
 			Pat: "op.CreateAccessToken(_, $request, _, $creator, $client, $refreshToken)", Max: 1},
@@ -50,8 +52,9 @@ func init() {
 		{ID: "E8.refresh.rotation.response", Fn: "op.CreateTokenResponse", P: []string{"ctx", "request", "client", "creator", "createAccessToken", "code", "refreshToken"}, Kind: "ret ok",
 			Pat: "ret(&AccessTokenResponse{RefreshToken: $new, AccessToken: $at}, nil)", Max: 1,
 			Req: []string{"false($createAccessToken) || def($new, op.CreateAccessToken(_, $request, _, $creator, $client, $refreshToken), 1)"}},
-		{ID: "E7.refresh.needs-refresh-token", Fn: "op.needsRefreshToken", P: []string{"tokenRequest", "client"}, Kind: "ret any", Pat: "ret(true)", Max: 1,
-			Req: []string{"is($tokenRequest, RefreshTokenRequest)"}},
+		{ID: "E7.refresh.needs-refresh-token", Fn: "op.needsRefreshToken", P: []string{"tokenRequest", "client"}, Kind: "ret fail",
+			Why: "a refresh request always rotates: the answer is never `no` for a RefreshTokenRequest (earlier cases of the type switch take precedence)",
+			Req: []string{"notis($tokenRequest, RefreshTokenRequest) || is($tokenRequest, AuthRequest) || is($tokenRequest, TokenExchangeRequest)"}},
 	}
 	register(&PropSpec{
 		ID: "C07",
